@@ -181,13 +181,34 @@ def _tridonic(run, repo, world, folder):
     o, bfn = _m(world, Q, "_bus_watch")
     from ..drv import expand_method
     bfn = expand_method(world, c, bfn, aliases="params")
-    t = ast.unparse(bfn)
+    from .. import astq
+    ctors = set()
+    datas = set()
+    for c_ in astq.calls(bfn):
+        k = world.resolve_class(HID, c_.func)
+        if k is None or k.qname not in ("dali.frame.ForwardFrame",
+                                        "dali.frame.BackwardFrame"):
+            continue
+        if k.name == "ForwardFrame" and len(c_.args) == 2:
+            ctors.add(("F", astq.canon(bfn, c_.args[0])))
+            datas.add(unparse(c_.args[1]))
+        elif k.name == "BackwardFrame" and len(c_.args) == 1:
+            ctors.add(("B", None))
+            datas.add(unparse(c_.args[0]))
+    # the data argument is field 2 of the unpacked report
+    field_ok = False
+    for n in ast.walk(bfn):
+        if isinstance(n, ast.Assign) and isinstance(
+                n.targets[0], ast.Tuple) and isinstance(
+                    n.value, ast.Call) and unparse(n.value.func).endswith(
+                        "_resptmpl.unpack") and len(
+                            n.targets[0].elts) == 5:
+            field_ok = datas == {unparse(n.targets[0].elts[2])}
     run.ob("R-WIRE-TRIDONIC", Q + "._bus_watch#decode",
-           "dali.frame.ForwardFrame(16, raw_frame)" in t and
-           "dali.frame.ForwardFrame(24, raw_frame)" in t and
-           "dali.frame.BackwardFrame(raw_frame)" in t,
+           ctors == {("F", "16"), ("F", "24"), ("B", None)} and field_ok,
            "reports must decode to 16/24-bit forward frames and backward "
-           "frames from the report's frame field", where(mod, bfn))
+           "frames from the report's frame field (constructors %s from %s)"
+           % (sorted(ctors, key=str), sorted(datas)), where(mod, bfn))
 
 
 def _hasseb(run, repo, world, folder):
@@ -328,16 +349,32 @@ def _luba(run, repo, world, folder):
            where(mod, lc.node))
     # receive side: event payload -> frames
     o, efn = _m(world, P, "_process_luba_event")
-    t = ast.unparse(efn)
+    from .. import astq
+    rd = efn.args.args[1].arg
+    puts = [c_ for c_ in astq.calls_to(efn, "put_nowait")
+            if unparse(c_.func.value) == "self._queue_rx_raw_dali"]
+    put_vals = {astq.canon(efn, c_.args[0]) for c_ in puts if c_.args}
+    # the event type decides what the payload holds: bits 7..6 of byte 6
+    et = set()
+    for n in ast.walk(efn):
+        if isinstance(n, ast.Compare) and len(n.ops) == 1 and isinstance(
+                n.comparators[0], ast.Constant) and type(
+                    n.comparators[0].value) is int:
+            t_ = astq.canon(efn, n.left)
+            if rd in t_:
+                et.add(t_)
+    mask = _fold(folder, o, ast.parse("self.EVENT_TYPE_MASK",
+                                      mode="eval").body)
+    et_forms = {"(%s[6] & self.EVENT_TYPE_MASK) >> 6" % rd,
+                "%s[6] >> 6 & 3" % rd, "%s[6] >> 6" % rd,
+                "(%s[6] & 192) >> 6" % rd}
     run.ob("R-WIRE-LUBA", P + "._process_luba_event#rx",
-           "payload = received_data[3:-1]" in t and
-           "event_type = (status_int & self.EVENT_TYPE_MASK) >> 6" in t and
-           "rx_dali = payload[4:]" in t and
-           "self._queue_rx_raw_dali.put_nowait(rx_dali[0])" in t and
-           _fold(folder, o, ast.parse("self.EVENT_TYPE_MASK",
-                                      mode="eval").body) == 0xC0,
-           "event decoding (payload span, event type bits, data bytes) "
-           "changed", where(mod, efn))
+           put_vals == {"%s[7]" % rd} and bool(et & et_forms) and
+           mask == 0xC0,
+           "event decoding changed: the received backward frame must be "
+           "byte 7 of the message (queued: %s) and the event type bits 7..6 "
+           "of byte 6 (tested: %s, mask %s)" % (
+               sorted(put_vals), sorted(et), mask), where(mod, efn))
 
 
 def _sci(run, repo, world, folder):
@@ -421,15 +458,20 @@ def _sci(run, repo, world, folder):
            where(mod, sc.node))
     # receive side dispatch: code -> byte span
     o, pfn = _m(world, P, "_process_byte")
-    t = ast.unparse(pfn)
+    from .. import astq
+    spans = {astq.canon(pfn, c_.args[0]) for c_ in astq.calls_to(
+        pfn, "_process_dali_frame") if c_.args}
+    code = any(isinstance(n, ast.BinOp) and isinstance(n.op, ast.BitAnd)
+               and astq.canon(pfn, n.left) == "self._buffer[0]" and
+               unparse(n.right).endswith("STATUS_CODE_MASK")
+               for n in ast.walk(pfn))
     run.ob("R-WIRE-SCI", P + "._process_byte#rx-spans",
-           "self._process_dali_frame((self._buffer[3],))" in t and
-           "self._process_dali_frame(self._buffer[2:4])" in t and
-           "self._process_dali_frame(self._buffer[1:4])" in t and
-           "self._buffer[0] & DriverSCIRS232.SCIRS232Protocol."
-           "STATUS_CODE_MASK" in t,
+           spans == {"(self._buffer[3],)", "self._buffer[2:4]",
+                     "self._buffer[1:4]"} and code,
            "received 8/16/24-bit frames must be taken right-aligned from "
-           "the three data bytes", where(mod, pfn))
+           "the three data bytes (spans passed on: %s; status code from "
+           "byte 0 & STATUS_CODE_MASK: %s)" % (sorted(spans), code),
+           where(mod, pfn))
     run.note("SCI: the transmitter places 8/16-bit frames LEFT-aligned in "
              "the three data bytes while the receiver reads them "
              "RIGHT-aligned; one side contradicts the other but the vendor "
@@ -638,11 +680,11 @@ def _legacy(run, repo, world, folder):
            where(mod, fn), sample={"rule": "R-WIRE-LEGACY",
                                    "driver": "tridonic (legacy)",
                                    "constants": consts})
-    t = ast.unparse(fn)
+    from .. import astq
     run.ob("R-WIRE-LEGACY", LTRI + ".TridonicDALIUSBDriver.construct#refusal",
-           "raise ValueError('24 Bit frames not yet')" in t and
-           "raise ValueError('Unknown frame length: {}'.format(len(frame)))"
-           in t, "unsupported frame lengths must be refused", where(mod, fn))
+           len(astq.raises(fn, "ValueError")) >= 2,
+           "unsupported frame lengths (24 bit, anything but 16) must be "
+           "refused with ValueError", where(mod, fn))
     o, efn = _m(world, LTRI + ".TridonicDALIUSBDriver", "extract")
     asg = {unparse(n.targets[0]): unparse(n.value) for n in ast.walk(efn)
            if isinstance(n, ast.Assign)}
@@ -670,24 +712,27 @@ def _legacy(run, repo, world, folder):
             "170", "HASSEB_DALI_FRAME", "self.sn", "frame_length",
             "expect_reply", "transmitter_settling_time", "send_twice",
             "byte_a", "byte_b", "0"]
-    t = ast.unparse(fn)
+    tests = {unparse(n.test) for n in ast.walk(fn) if isinstance(n, ast.If)}
+    cmdp = fn.args.args[1].arg
     run.ob("R-WIRE-LEGACY", c[0].qname + ".construct", ok and
-           "frame_length = 16" in t and "byte_a, byte_b = frame" in t and
-           "if command.sendtwice:" in t and "if command.is_query:" in t,
+           astq.canon(fn, packs[0].args[4]) == "16" and
+           {cmdp + ".sendtwice", cmdp + ".is_query"} <= tests,
            "10-byte packet (0xAA, type, sn, 16, expect-reply, settling, "
            "send-twice delay, two frame bytes, 0) expected",
            where(mod, fn))
     # UniPi
     mod = repo.mod(UNI)
     o, fn = _m(world, UNI + ".UnipiDALIDriver", "construct")
-    t = ast.unparse(fn)
     tw = folder.eval(ast.parse("DA_OPT_TWICE", mode="eval").body, {}, UNI)
+    vals = {unparse(v) for vs in astq.stores(fn).values() for v in vs
+            if not isinstance(v, ast.AugAssign)}
+    augs = [v for vs in astq.stores(fn).values() for v in vs if isinstance(
+        v, ast.AugAssign) and isinstance(v.op, ast.BitOr) and unparse(
+            v.value) == "DA_OPT_TWICE"]
     run.ob("R-WIRE-LEGACY", UNI + ".UnipiDALIDriver.construct",
-           "reg1 = opt << 8" in t and "reg2 = ad << 8 | cm1" in t and
-           "reg1 = opt << 8 | ad" in t and "reg2 = cm1 << 8 | cm2" in t and
-           t.count("opt |= DA_OPT_TWICE") == 2 and isinstance(tw, int) and
-           "raise ValueError('Unknown frame length: {}'.format(len(frame)))"
-           in t,
+           {"opt << 8", "ad << 8 | cm1", "opt << 8 | ad",
+            "cm1 << 8 | cm2"} <= vals and len(augs) == 2 and
+           isinstance(tw, int) and astq.raises(fn, "ValueError"),
            "register pair layout / send-twice option / refusal changed",
            where(mod, fn))
 
